@@ -187,7 +187,12 @@ func isAddressKey(k string) bool {
 func jsonStr(s string) string { return vc.MustJSON(s) }
 
 func buildV2(ep endpointV2, key, op, value string, extraAnd int) (string, string) {
-	body := fmt.Sprintf(`{%s: {%s: %s}}`, jsonStr(op), jsonStr(key), jsonStr(value))
+	val := jsonStr(value)
+	if extraAnd >= 10 { // the value is a JSON array (a list of values), the hostile text one of its elements
+		extraAnd -= 10
+		val = "[" + jsonStr("users:001") + ", " + jsonStr(value) + "]"
+	}
+	body := fmt.Sprintf(`{%s: {%s: %s}}`, jsonStr(op), jsonStr(key), val)
 	other := `{"$match": {"metadata[z]": "o'o"}}`
 	switch extraAnd {
 	case 1: // other value-carrying clause first
@@ -238,6 +243,10 @@ func genFilterCase(r *vc.Rand, value string) (hostileCase, benignCase filterCase
 		and := 0
 		if r.Chance(1, 2) {
 			and = r.Range(1, 3)
+		}
+		if pos == "value" && r.Chance(1, 8) {
+			and += 10
+			pos = "value-in-list"
 		}
 		ht, hb := buildV2(ep, hkey, op, hv, and)
 		bt, bb := buildV2(ep, bkey, op, bv, and)
